@@ -28,7 +28,8 @@ RULE = (
 )
 ASSUMPTIONS = [
     "float64, CPU",
-    "zero-field dataclasses and dataclass instances: only 'no other exception' and correctness of an accepted grid are judged (the statement does not decide acceptance)",
+    "zero-field dataclasses and dataclass instances built with default arguments: only 'no other exception' and correctness of an accepted grid are judged (the statement does not decide acceptance)",
+    "a dataclass INSTANCE constructed with explicit values: its field values are the values the instance carries (the reading pinned by the repository's own test_get_fields_instance); acceptance and array form are judged on them",
 ]
 TECHNIQUE = "property-based testing of an accept-or-reject dichotomy with a validity predicate on the materialised array, over a typed pool of constructor arguments"
 LEVEL_TEXT = "Exploration: tens of thousands of generated constructor argument combinations per run; each is either rejected with the documented error or checked element-wise."
@@ -75,8 +76,22 @@ def case_cont(draw):
 
 @st.composite
 def case_disc(draw):
-    shape = draw(st.sampled_from(["dataclass", "dataclass", "dataclass", "plain_class", "instance", "not_a_class"]))
+    shape = draw(st.sampled_from(["dataclass", "dataclass", "dataclass", "plain_class", "instance", "not_a_class",
+                                  "instance_values"]))
     k = draw(st.integers(0, 5))
+    vals = draw(_disc_vals(k))
+    # class-level constants that are NOT dataclass fields (ClassVar / InitVar pseudo-fields)
+    extras = draw(st.lists(st.sampled_from(["classvar_int", "classvar_next_code", "classvar_str", "initvar", "classvar_zero_first"]),
+                           min_size=0, max_size=2, unique=True)) if draw(st.integers(0, 2)) == 0 else []
+    out = {"kind": "disc", "shape": shape, "vals": vals, "extras": extras}
+    if shape == "instance_values":
+        # a dataclass INSTANCE that carries explicitly set values (other than the class defaults)
+        out["inst_vals"] = draw(_disc_vals(k))
+    return out
+
+
+@st.composite
+def _disc_vals(draw, k):
     mode = draw(st.sampled_from(["range", "range", "range_float", "range_bool", "perm", "dup", "jump", "offset", "mixed"]))
     if mode == "range":
         vals = [["int", repr(i)] for i in range(k)]
@@ -94,10 +109,7 @@ def case_disc(draw):
         vals = [["int", repr(i + 1)] for i in range(k)]
     else:
         vals = [draw(st.sampled_from([["int", repr(i)], ["str", "'a'"], ["none", "None"], ["missing", ""], ["float", "nan"], ["float", repr(i + 0.5)], ["float", repr(float(i))]])) for i in range(k)]
-    # class-level constants that are NOT dataclass fields (ClassVar / InitVar pseudo-fields)
-    extras = draw(st.lists(st.sampled_from(["classvar_int", "classvar_next_code", "classvar_str", "initvar", "classvar_zero_first"]),
-                           min_size=0, max_size=2, unique=True)) if draw(st.integers(0, 2)) == 0 else []
-    return {"kind": "disc", "shape": shape, "vals": vals, "extras": extras}
+    return vals
 
 
 def strategy(tier):
@@ -267,7 +279,22 @@ def check_disc(case):
         all_fields = [("version", typing.ClassVar[int], 0), *fields, *extra_fields]
     else:
         all_fields = [*fields, *extra_fields]
-    if shape in ("dataclass", "instance"):
+    inst_pyvals = None
+    if shape == "instance_values":
+        cat = dataclasses.make_dataclass("Cat", all_fields)
+        iv = [v for v in case["inst_vals"]][: len(fields)]
+        kwargs = {}
+        for f, v in zip(fields, iv):
+            if v[0] != "missing":
+                kwargs[f[0]] = mk(v)
+            elif len(f) == 2:
+                kwargs[f[0]] = 0
+        try:
+            cat = cat(**kwargs)
+        except Exception:  # noqa: BLE001
+            return [], False, "skip", None
+        inst_pyvals = [getattr(cat, f[0]) for f in fields]
+    elif shape in ("dataclass", "instance"):
         cat = dataclasses.make_dataclass("Cat", all_fields)
         if shape == "instance":
             try:
@@ -279,8 +306,11 @@ def check_disc(case):
     else:
         cat = [mk(v) for v in vals if v[0] != "missing"]
     pyvals = [None if v[0] == "missing" else mk(v) for v in vals]
+    if inst_pyvals is not None:
+        # the field values of an instance are the values it carries
+        pyvals = inst_pyvals
     should = (
-        shape == "dataclass"
+        shape in ("dataclass", "instance_values")
         and len(pyvals) >= 1
         and all(isinstance(x, (int, float)) and not isinstance(x, complex) for x in pyvals)
         and all(isinstance(x, (int, float)) and x == i for i, x in enumerate(pyvals))
